@@ -351,7 +351,7 @@ type ReencCase struct {
 	Item int     `json:"item"` // pre-order index of the CBOR item the re-encoding is applied to
 }
 
-var sigKinds = []string{"sig-ecdsa-n-minus-s", "sig-der-long-length", "sig-der-padded-int", "sig-der-trailing-byte", "sig-prepend-zero", "sig-append-zero", "sig-drop-leading-zero", "sig-frame-prepend-header", "sig-frame-append-header", "sig-frame-prepend-varsig-prefix", "sig-frame-prepend-length", "sig-frame-prepend-key-code", "sig-frame-doubled", "sig-frame-prepend-ff"}
+var sigKinds = []string{"sig-ecdsa-s-plus-n", "sig-ecdsa-r-plus-n", "sig-ecdsa-n-minus-s", "sig-der-long-length", "sig-der-padded-int", "sig-der-trailing-byte", "sig-prepend-zero", "sig-append-zero", "sig-drop-leading-zero", "sig-frame-prepend-header", "sig-frame-append-header", "sig-frame-prepend-varsig-prefix", "sig-frame-prepend-length", "sig-frame-prepend-key-code", "sig-frame-doubled", "sig-frame-prepend-ff"}
 
 func curveN(a keys.Alg) *big.Int {
 	switch a {
@@ -399,6 +399,14 @@ func sigVariant(kind string, alg keys.Alg, sig []byte) ([]byte, bool) {
 		es.S = new(big.Int).Sub(n, es.S)
 		out, err := asn1.Marshal(es)
 		return out, err == nil
+	case "sig-ecdsa-s-plus-n":
+		es.S = new(big.Int).Add(n, es.S) // the same residue, written one modulus higher
+		out, err := asn1.Marshal(es)
+		return out, err == nil
+	case "sig-ecdsa-r-plus-n":
+		es.R = new(big.Int).Add(n, es.R)
+		out, err := asn1.Marshal(es)
+		return out, err == nil
 	case "sig-der-trailing-byte":
 		return append(append([]byte{}, sig...), 0x00), true
 	case "sig-der-long-length":
@@ -433,7 +441,7 @@ func buildVariant(rc ReencCase, sealed []byte) (variant []byte, ok bool) {
 	case "extra-element":
 		root.Items = append(root.Items, cbor.Uint(0))
 		return root.Bytes(), true
-	case "sig-ecdsa-n-minus-s", "sig-der-long-length", "sig-der-padded-int", "sig-der-trailing-byte", "sig-prepend-zero", "sig-append-zero", "sig-drop-leading-zero":
+	case "sig-ecdsa-s-plus-n", "sig-ecdsa-r-plus-n", "sig-ecdsa-n-minus-s", "sig-der-long-length", "sig-der-padded-int", "sig-der-trailing-byte", "sig-prepend-zero", "sig-append-zero", "sig-drop-leading-zero":
 		sig, ok := sigVariant(rc.Kind, rc.Tok.Issuer().Alg, root.Items[0].Data)
 		if !ok {
 			return nil, false
